@@ -19,17 +19,17 @@ type cnode struct {
 	kind string // leaf and or not null
 	subs []*cnode
 	// leaf
-	col   string
-	inv   bool
-	cmpS  string        // built in name ("" if fn)
-	cmpGo interface{}   // Go comparator
-	argGo interface{}   // Go argument
-	argC  string        // Coq farg
-	fnT   string        // "" | TInt TFloat TBool TString
-	fnAr  int           // 1 | 2
-	rec1  *[]string     // recorded "(cell, bool)" entries
-	desc  string
-	argCol string       // argument column of a two argument predicate
+	col    string
+	inv    bool
+	cmpS   string      // built in name ("" if fn)
+	cmpGo  interface{} // Go comparator
+	argGo  interface{} // Go argument
+	argC   string      // Coq farg
+	fnT    string      // "" | TInt TFloat TBool TString
+	fnAr   int         // 1 | 2
+	rec1   *[]string   // recorded "(cell, bool)" entries
+	desc   string
+	argCol string // argument column of a two argument predicate
 }
 
 // complete evaluates the (pure) custom predicates of the clause on every physical cell of their column(s), so that
@@ -92,7 +92,6 @@ func (n *cnode) complete(d qframe.VerifFrame) {
 }
 
 var _ = 0
-
 
 func (n *cnode) goClause() qframe.FilterClause {
 	switch n.kind {
@@ -198,6 +197,7 @@ func dedup(in []string) []string {
 func cInt(x int) string       { return "(CInt " + hlib.Z(int64(x)) + ")" }
 func cFloat(x float64) string { return "(CFloat " + coqFloat(x) + ")" }
 func cBool(x bool) string     { return "(CBool " + hlib.Bool(x) + ")" }
+
 // caseStrings collects every string that occurs in a recorded cell of the current case (oracle tables such as
 // the upper-casing table must cover intermediate results too).
 var caseStrings = map[string]bool{}
@@ -254,7 +254,11 @@ func genLeaf(r *hlib.Rng, cols []genCol, malformed bool) *cnode {
 		case "float":
 			n.fnT = "TFloat"
 			if ar == 1 {
-				n.cmpGo = func(x float64) bool { v := x > 0 || math.IsNaN(x); rec = append(rec, "("+cFloat(x)+", "+hlib.Bool(v)+")"); return v }
+				n.cmpGo = func(x float64) bool {
+					v := x > 0 || math.IsNaN(x)
+					rec = append(rec, "("+cFloat(x)+", "+hlib.Bool(v)+")")
+					return v
+				}
 			} else {
 				n.cmpGo = func(x, y float64) bool {
 					v := x <= y
@@ -605,15 +609,16 @@ func genPromotionClause(r *hlib.Rng, cols []genCol) *cnode {
 // genEnumLikeClause: like / ilike on an enum (or string) column whose values differ only in case, with patterns
 // made from those values: exact, prefix, suffix, contains.  Several distinct enum values match one ilike pattern.
 func genEnumLikeClause(r *hlib.Rng, cols []genCol) *cnode {
-	var c *genCol
+	var cands []*genCol
 	for i := range cols {
-		if cols[i].kind == "enum" || (c == nil && cols[i].kind == "string") {
-			c = &cols[i]
+		if cols[i].kind == "enum" || cols[i].kind == "string" {
+			cands = append(cands, &cols[i])
 		}
 	}
-	if c == nil {
+	if len(cands) == 0 {
 		return nil
 	}
+	c := cands[r.Intn(len(cands))]
 	base := caseCluster[r.Intn(len(caseCluster))]
 	pat := []string{base, base, base + "%", "%" + base, "%" + base + "%"}[r.Intn(5)]
 	op := []string{"ilike", "ilike", "like"}[r.Intn(3)]
